@@ -32,6 +32,8 @@ CATS = [
     (r".*", r"Option::unwrap", r".*", "Some by construction in the preceding stage"),
     (r".*", r"Vec::(remove|insert|drain|swap_remove|split_off)", r".*", "position is 0 / a range over the whole vector / found by a search of the same vector; emptiness excluded by the caller"),
     (r".*", r"mir:(div_zero|rem_zero)", r".*", "constant non-zero divisor"),
+    (r".*", r"mir:overflow_sub", r".*", "unsigned subtraction whose subtrahend is bounded by a preceding length / position test in the same function (debug builds panic on underflow, release builds would index out of range)"),
+    (r".*", r"mir:overflow_neg", r".*", "negation of an i64 taken from a literal: only i64::MIN overflows; reachable only with the literal -9223372036854775808 (debug builds)"),
     (r".*", r"mir:bounds", r".*", "fixed-size array indexed by a constant / loop counter bounded by its length"),
     (r".*", r"unreachable!", r".*", "compiler-bug invariant (CLAUDE.md allows unreachable! for these): the arm is excluded by a preceding match or stage"),
     (r".*", r"(panic|todo|assert|assert_eq|assert_ne|unimplemented)!", r".*", "explicit assertion of a compiler-bug invariant; no input reaching it was found while reviewing"),
@@ -59,6 +61,26 @@ def main():
                 reason = why
                 break
         rows.append({"key": list(key), "count": n, "reason": reason or "UNREVIEWED"})
+    # guarded literal-index sites (see C12.index_guard)
+    sys.path.insert(0, "/verif/sa/rules")
+    import C12, guards
+    from synq import walk
+    g = {}
+    for sdict in sites:
+        if sdict["cls"] != "Vec[]" or not sdict["step"].endswith("[lit]"):
+            continue
+        sf = syn.fn_at(sdict["file"], sdict["l"])
+        if not sf or "body" not in sf:
+            continue
+        par = guards.parents(sf["body"])
+        for nnode in walk(sf["body"]):
+            if nnode.get("k") == "index" and nnode["l"] == sdict["l"] and nnode["i"].get("k") == "lit":
+                if C12.index_guard(nnode, par):
+                    g[sdict["key"]] = g.get(sdict["key"], 0) + 1
+                break
+    for r in rows:
+        if tuple(r["key"]) in g:
+            r["guarded"] = g[tuple(r["key"])]
     json.dump({"_doc": "classes of panic-capable sites present on the reviewed tree: (file, callee class, receiver step) -> count and invariant. A class not listed, or more sites of a class than listed, is reported by C12.R1.", "rows": rows},
               open(out_path, "w"), indent=1)
     print(len(rows), "classes,", sum(counts.values()), "sites,", sum(1 for r in rows if r["reason"] == "UNREVIEWED"), "unreviewed")
